@@ -1060,6 +1060,24 @@ def g6_names(repo):
     return "\n\n".join(out) + "\n"
 
 
+# ---------------------------------------------------------------- G7: cost copies (C20)
+def cost_copy(text, origin):
+    """the same definitions compiled against CursorC.v (cursor with work counters) instead of Cursor.v"""
+    t = text
+    t = t.replace("From HV Require Import Cursor Scan Intrinsics.",
+                  "From HV Require Import CursorC Intrinsics.\nFrom HV.Generated Require Import CScan.")
+    t = t.replace("From HV Require Import Cursor Scan.",
+                  "From HV Require Import CursorC.\nFrom HV.Generated Require Import CScan.")
+    t = t.replace("From HV Require Import Cursor.", "From HV Require Import CursorC.")
+    t = t.replace("From HV.Generated Require Import Classes Swar Sse42 Avx2 Neon Cfg.",
+                  "From HV.Generated Require Import Classes Swar CSse42 CAvx2 CNeon Cfg.")
+    t = re.sub(r"\| Part =>", "| Part _ _ =>", t)
+    t = re.sub(r"\| Fail (\w+) =>", r"| Fail \1 _ _ =>", t)
+    if "CursorC" not in t:
+        raise TranslationError("cost copy of %s: import line not recognised" % origin)
+    return ("(* GENERATED by translator/rs2v.py: textual copy of %s compiled against CursorC.v -- do not edit *)\n" % origin) + t
+
+
 def write_if_changed(path, text):
     old = None
     if os.path.exists(path):
@@ -1142,6 +1160,19 @@ def main():
                 g6_names(repo))
 
     gen("Names.v", names)
+
+    coqdir = os.path.dirname(os.path.abspath(outdir))
+
+    def hand(name):
+        with open(os.path.join(coqdir, name)) as f:
+            return f.read()
+
+    gen("CScan.v", lambda: cost_copy(hand("Scan.v"), "Scan.v"))
+    gen("CModel.v", lambda: cost_copy(hand("Model.v"), "Model.v"))
+    gen("CBackends.v", lambda: cost_copy(hand("Backends.v"), "Backends.v"))
+    for nm in ("Sse42", "Avx2", "Neon"):
+        if nm + ".v" in files:
+            gen("C" + nm + ".v", lambda nm=nm: cost_copy(files[nm + ".v"], "Generated/" + nm + ".v"))
     changed = []
     for name, text in files.items():
         if write_if_changed(os.path.join(outdir, name), text):
